@@ -95,6 +95,7 @@ func verifC04Nodes(mr metadata.Reader, rec *verifc04.Rec) error {
 		name := fr.names[fr.i]
 		fr.i++
 		budget--
+		rec.Beat()
 		in, errno := fr.n.Lookup(ctx, name, eo)
 		if errno != 0 || in == nil {
 			continue
